@@ -55,6 +55,8 @@ pub struct WalletSide {
   pub mine_on_poll: Option<(u32, u32)>,
   pub polls: u64,
   pub blocks_mined_on_poll: u64,
+  /// reveal keys handed out so far (the wallet's key entropy is a seam)
+  pub entropy_draws: u64,
 }
 
 pub fn wallet_script(wallet: &str, k: u32) -> ScriptBuf {
